@@ -33,6 +33,7 @@ Proof.
       * eapply step_CWalk_end_simple; eauto 6.
       * eapply step_CWalk_end_simple; eauto 7.
       * eapply step_CWalk_end_simple; eauto 7.
+      * eapply step_CWalk_end_state; eauto.
   - (* WWalk *)
     destruct (get_hook g cur) as [hk|] eqn:Hx.
     2: { unfold step in Hs. rewrite Hth, Hpc, Hx in Hs. discriminate. }
@@ -299,7 +300,7 @@ Qed.
 
 (* a thread about to lock a hook mutex is enabled *)
 Lemma en_hook_pc : forall t th, nth_error (threads g) t = Some th ->
-  (match t_pc th with CWalk _ _ _ | WWalk _ _ _ | CallFin _ | FMark _ _ _ | InCall _ => True | _ => False end) ->
+  (match t_pc th with CWalk _ _ _ | WWalk _ _ _ | CallFin _ _ | FMark _ _ _ | InCall _ => True | _ => False end) ->
   exists g', step true g t = Some g'.
 Proof.
   intros t th Hth Hk. pose proof (W t th Hth) as Wt. unfold step. rewrite Hth.
